@@ -1,8 +1,8 @@
 (* C18 — property theorems only.  Model: Model.v (text), ModelPath.v (JSONPath operations), ModelBridge.v
    (Go data / Lisp objects / bag data); guards: Spec.v, SpecPath.v; proofs: ProofsLex, ProofsText, ProofsPath,
-   ProofsBridge, ProofsWalk. *)
+   ProofsBridge, ProofsWalk, ProofsPattern. *)
 From Coq Require Import List ZArith NArith Bool Strings.Byte String.
-From C18 Require Import Tables Model Spec ModelPath ModelBridge SpecPath ProofsLex ProofsText ProofsPath ProofsBridge ProofsWalk.
+From C18 Require Import Tables Model Spec ModelPath ModelBridge SpecPath ProofsLex ProofsText ProofsPath ProofsBridge ProofsWalk ProofsPattern.
 Import ListNotations.
 
 (* ---- (1) text ------------------------------------------------------------------------------------
@@ -165,6 +165,65 @@ Theorem C18_walk_any_pattern : forall p v c, keys_unique v = true ->
   (In c (get_all p v) <-> exists q, vinst v q p /\ cget q v = Some c).
 Proof. exact walk_any_pattern. Qed.
 Print Assumptions C18_walk_any_pattern.
+
+(* ---- (2b) set, modify and remove through patterns (wildcards) -------------------------------------
+   Setting x through a pattern p of keys, indices and wildcards (bag-set with "*" fragments): when the call
+   succeeds, every concrete instance q of p that existed before reads x afterwards ... *)
+Theorem C18_set_pattern_then_get : forall p x q v v' c0, no_desc p = true -> p <> [] -> mset p x v = SOk v' ->
+  inst q p -> cget q v = Some c0 -> cget q v' = Some x.
+Proof. exact set_pattern_inst. Qed.
+Print Assumptions C18_set_pattern_then_get.
+(* ... and everything the pattern matches in the new tree (created members included) is x. *)
+Theorem C18_set_pattern_all : forall p x v v', no_desc p = true -> p <> [] -> mset p x v = SOk v' ->
+  forall c, In c (get_all p v') -> c = x.
+Proof. exact set_pattern_all. Qed.
+Print Assumptions C18_set_pattern_all.
+(* Frame: every concrete path q that parts ways with the pattern inside v (pdisjoint: p names another key or
+   index than q at a node both reach; a wildcard never parts ways; or q does not exist below a wildcard) reads the
+   same before and after - whether the set succeeded or panicked half way.  On concrete p, pdisjoint is the
+   disjoint of C18_set_frame. *)
+Theorem C18_set_pattern_frame : forall p q x v, no_desc p = true -> concrete q = true -> p <> [] -> pdisjoint p q v = true ->
+  cget q (sres_tree (mset p x v)) = cget q v.
+Proof. exact set_pattern_frame. Qed.
+Print Assumptions C18_set_pattern_frame.
+Theorem C18_pdisjoint_concrete : forall p q v, concrete p = true -> pdisjoint p q v = disjoint p q v.
+Proof. exact pdisjoint_concrete. Qed.
+Print Assumptions C18_pdisjoint_concrete.
+
+(* bag-modify through a pattern of keys, indices and wildcards (modify_at p g is what Expr.Modify does with the
+   function g on bag data): the matches of p afterwards are exactly the old matches, each replaced by g of it; *)
+Theorem C18_modify_matches : forall p g v, no_desc p = true -> get_all p (modify_at p g v) = map g (get_all p v).
+Proof. exact get_all_modify. Qed.
+Print Assumptions C18_modify_matches.
+(* path by path: an instance q of p that reached c reaches g c; *)
+Theorem C18_modify_instance : forall p g q v c, no_desc p = true -> inst q p -> cget q v = Some c ->
+  cget q (modify_at p g v) = Some (g c).
+Proof. exact modify_inst. Qed.
+Print Assumptions C18_modify_instance.
+(* and every concrete path that parts ways with the pattern is unchanged (also the frame of a remove through a
+   wildcard, which modifies the parents: bag_remove (sx ++ [last]) = modify_at sx (remove_last last)). *)
+Theorem C18_modify_frame : forall p g q v, no_desc p = true -> concrete q = true -> pdisjoint p q v = true ->
+  cget q (modify_at p g v) = cget q v.
+Proof. exact modify_frame. Qed.
+Print Assumptions C18_modify_frame.
+(* For EVERY pattern that does not end in a descent (descents in the middle included): a function that gives
+   back what it was given leaves the bag as it was; *)
+Theorem C18_modify_fixed : forall p g v, ends_desc p = false -> (forall c, In c (get_all p v) -> g c = c) -> modify_at p g v = v.
+Proof. exact modify_fixed. Qed.
+Print Assumptions C18_modify_fixed.
+(* in particular (bag-modify b (lambda (x) x) path): each match goes to the function as native Lisp data and comes
+   back through ObjectToBag (repo_fixes C18-4); when every match survives that round trip (native_ok) nothing
+   changes.  Before the fix an object came back as a list of pairs. *)
+Theorem C18_modify_identity : forall p v v', (forall c, In c (get_all p v) -> native_ok c = true) ->
+  bag_modify_fn p MId v = Some v' -> v' = v.
+Proof. exact modify_identity. Qed.
+Print Assumptions C18_modify_identity.
+(* remove through a pattern: after removing the member k, or every member ("*"), of everything sx matches, has of
+   that path is false and get-all finds nothing. *)
+Theorem C18_remove_pattern_then_has : forall sx last v v', no_desc sx = true -> (last = FWild \/ exists k, last = FKey k) ->
+  bag_remove (sx ++ [last]) v = Some v' -> mhas (sx ++ [last]) v' = false /\ get_all (sx ++ [last]) v' = [].
+Proof. exact remove_pattern_has. Qed.
+Print Assumptions C18_remove_pattern_then_has.
 
 (* ---- (3) conversions -----------------------------------------------------------------------------
    A bag converted to native Lisp data (bag-native) and back (make-bag / bag-set) is the same bag, inside the
